@@ -12,7 +12,7 @@ variable {K V : Type} {lt : K → K → Bool}
 /-! ### step equations of the inner case -/
 
 theorem lowerFirst_eq (P : Params K) (key : K) (index : Nat) (runts : List K) {d : Nat}
-    (child : Node K V d) (s : K) (hs : Node.smallest child = .ok s) :
+    (child : Node K V d) (s : K) (hs : runts[0]? = some s) :
     lowerFirst P key index runts child =
       .ok (if index = 0 ∧ P.lt key s = true then runts.set 0 key else runts) := by
   unfold lowerFirst
@@ -196,24 +196,28 @@ theorem upsertInner_ok (h : SWO lt) (P : Params K) (hP : P.lt = lt) (hpad : ∀ 
         (rA ≠ [] → k' = k) ∧ ltO P.lt k' hiC ∧
         (rA = [] → leO P.lt (lowered P.lt lo key) k') ∧
         loLe P.lt (some k') loC := by
-    by_cases hlow : rA.length = 0 ∧ P.lt key s = true
+    by_cases hlow : rA.length = 0 ∧ P.lt key k = true
     · have hAnil : rA = [] := List.eq_nil_of_length_eq_zero hlow.1
-      refine ⟨key, some s, ?_, hcWs, lowered_of_lt s key hlow.2, fun hn => absurd hAnil hn, hkeyhiC,
+      refine ⟨key, some k, ?_, hcW, lowered_of_lt k key hlow.2, fun hn => absurd hAnil hn, hkeyhiC,
         fun _ => lowered_le_key h lo key, h.asymm hlow.2⟩
-      rw [lowerFirst_eq P key _ _ c s hsm]
+      subst hAnil
+      rw [lowerFirst_eq P key _ _ c k (by simp)]
       simp only [hlow, and_self, if_true]
-      subst hAnil; rfl
+      rfl
     · have hkk : P.lt key k = false := by
         by_cases hAnil : rA = []
-        · have hns : P.lt key s = false := by
-            cases hx : P.lt key s with
-            | false => rfl
-            | true => exact absurd ⟨by simp [hAnil], hx⟩ hlow
-          exact h.le_trans hks hns
+        · cases hx : P.lt key k with
+          | false => rfl
+          | true => exact absurd ⟨by simp [hAnil], hx⟩ hlow
         · exact hF1 hAnil
       refine ⟨k, some k, ?_, hcW, lowered_of_ge k key hkk, fun _ => rfl, hkhi, ?_, h.irrefl k⟩
-      · rw [lowerFirst_eq P key _ _ c s hsm]
-        simp only [hlow, if_false]
+      · by_cases hAnil : rA = []
+        · subst hAnil
+          rw [lowerFirst_eq P key _ _ c k (by simp)]
+          simp [hkk]
+        · obtain ⟨a, rA', rfl⟩ := List.exists_cons_of_ne_nil hAnil
+          rw [lowerFirst_eq P key _ _ c a (by simp)]
+          simp
       · intro hAnil
         subst hAnil
         exact leO_lowered_of_leO h (hlo k rfl)
